@@ -1262,7 +1262,7 @@ func whyAdmitted(s *specInfo, desc, bit string, elem bool, mode string) string {
 
 func init() {
 	register(&Rule{
-		ID: "C11.accessor-guards", Prop: "C11", Floor: 40, Controls: 1,
+		ID: "C11.accessor-guards", Prop: "C11", Also: []string{"C13", "C14"}, Floor: 40, Controls: 1,
 		Doc: "in every Type/Impl callback of a standard function, each partial accessor (AsString, AsBigFloat, LengthInt, ElementIterator, AsValueSlice, ...) called on an argument admitted as null by its Parameter declaration — or on an element of an argument, which may always be null — is dominated by an IsNull guard (otherwise the call panics inside the callback)",
 		Run: func(rr *RuleRun) { runStdlibBit(rr, "notnull") },
 	})
@@ -1277,12 +1277,12 @@ func init() {
 		Run: func(rr *RuleRun) { runStdlibBit(rr, "unmarked") },
 	})
 	register(&Rule{
-		ID: "C11.type-accessor-kinds", Prop: "C11", Also: []string{"C12"}, Floor: 15, Controls: 1,
+		ID: "C11.type-accessor-kinds", Prop: "C11", Also: []string{"C12", "C13", "C14"}, Floor: 15, Controls: 1,
 		Doc: "in the callbacks of a standard function a kind-specific accessor of cty.Type (ElementType, AttributeTypes, TupleElementTypes, ...) is called on the type of an argument only where that type is known to be of the right kind: not for cty.DynamicVal when the parameter is declared AllowDynamicType, and in a type callback of an any-type parameter only under a guard that narrows the kind",
 		Run: func(rr *RuleRun) { runStdlibBit(rr, "kind") },
 	})
 	register(&Rule{
-		ID: "C11.req-table", Prop: "C11", Also: []string{"C12", "C04"}, Floor: 10,
+		ID: "C11.req-table", Prop: "C11", Also: []string{"C12", "C04", "C13", "C14"}, Floor: 10,
 		Doc: "the table of accessor preconditions used by the typestate rules agrees with the accessors' own leading guard-then-panic statements in package cty",
 		Run: runReqTable,
 	})
